@@ -50,6 +50,24 @@ def check_case(ctx, im, prog, text, ev, env, layer):
     return None
 
 
+class Residents:
+    """evaluators of earlier programs stay alive (as in a service hosting many experiments) and are asked again after later
+    programs have been compiled: routing of one evaluator must not depend on what else was compiled in the process"""
+
+    def __init__(self, keep=3):
+        self.keep = keep
+        self.items = []
+
+    def recheck(self, ctx, im):
+        for prog, text, ev, envs in self.items:
+            for env in envs:
+                check_case(ctx, im, prog, text, ev, env, "co-resident")
+
+    def add(self, prog, text, ev, envs):
+        self.items.append((prog, text, ev, list(envs)[:6]))
+        del self.items[: -self.keep]
+
+
 def construct(ctx, im, text, layer):
     st = ref_parse(text)
     if st[0] != "ok":
@@ -238,6 +256,7 @@ def run(ctx):
                 check_case(ctx, im, prog, text, ev, env, "trees")
             ctx.count("trees/programs")
     # ---- 1c
+    res = Residents()
     for prog0, names in skeletons():
         idx += 1
         if not ctx.mine(idx):
@@ -247,8 +266,10 @@ def run(ctx):
         if ev is None:
             continue
         reached = set()
-        for bits in itertools.product((0, 1), repeat=len(names)):
-            env = dict(zip(names, bits))
+        res.recheck(ctx, im)  # the earlier skeletons use the same field names
+        all_envs = [dict(zip(names, bits)) for bits in itertools.product((0, 1), repeat=len(names))]
+        res.add(prog, text, ev, rnd.sample(all_envs, min(6, len(all_envs))))
+        for env in all_envs:
             sel = check_case(ctx, im, prog, text, ev, env, "skeletons")
             reached.add(sel)
         ctx.count("skeletons/programs")
@@ -287,6 +308,8 @@ def run(ctx):
         ev = c[1]
         reached = set()
         envs, _ = choose_inputs(prog, gp, rnd, ninputs)
+        res.recheck(ctx, im)
+        res.add(prog, gp.text, ev, envs)
         for env in envs:
             sel = check_case(ctx, im, prog, gp.text, ev, env, "random")
             if sel is not None:
